@@ -271,6 +271,25 @@ pub fn run(args: &Args) -> i32 {
         check_name(&s, loc);
         loc.note(hash64(s.as_bytes()), s.len() == 4 && s.is_ascii(), "parsed");
     });
+    // non-ASCII characters of every case class and width
+    const UNI: [&str; 16] = ["B", "C", "P", "A", "0", "1", "9", "É", "Ω", "Ⓐ", "é", "١", "Ⅷ", "ǅ", "𝐀", "ß"];
+    rep.run("names-unicode-case", 1 + 16 + 256 + 4096 + 65536, 60, true, "every string of 0..=4 symbols over {B, C, P, A, 0, 1, 9, É, Ω, Ⓐ, é, ١, Ⅷ, ǅ, 𝐀, ß} (upper / lower / title case, digits and numerals of 2, 3 and 4 bytes)", |idx, loc| {
+        let mut x = idx;
+        let mut l = 0usize;
+        let mut block = 1u64;
+        while x >= block {
+            x -= block;
+            block *= 16;
+            l += 1;
+        }
+        let mut s = String::new();
+        for _ in 0..l {
+            s.push_str(UNI[(x % 16) as usize]);
+            x /= 16;
+        }
+        check_name(&s, loc);
+        loc.note(hash64(&(s.as_bytes(), "uni")), s.len() == 4, "parsed");
+    });
     // strings assembled from the tokens documented names are made of (repeated prefixes, doubled board numbers, a
     // whole name followed by another): every sequence of 0..=4 tokens
     let tokens = ["B", "C", "PC", "AT", "ATAT", "TRBA", "MCVX", "CBF", "CBF1", "SEQ2", "09", "00", "77", "18", "0", "A", "F", "V", "1", " "];
